@@ -91,6 +91,7 @@ func (u *controlUnit) cycle(cycle int, ctx *risc.Context) {
 	}
 
 	for !u.pendings.IsFull() {
+		ctx.VerifTick(6, cycle)
 		runner, exists := u.inBus.Get()
 		if !exists {
 			return
